@@ -12,9 +12,16 @@
     - with C04_writes_form_chain: the write, if any, is one link [cur -> new] of the chain.
     All accepted forms of [current] reach the strategy as one raw pointer ([AsRaw::as_raw]);
     that they coincide is checked by the sequential differential run (C14/C15), not here.
-    NOT yet proved: "A-B-A cannot confuse it" as identity (not address) equality needs the
-    protection invariant (the guard held across the exchange keeps [cur]'s object alive). *)
-From ASModel Require Import Base State Orderings_gen Step Run Progress Hist.
+     
+    A-B-A ([Alive], all schedules within [Main.RunOK]): while the exchange frame of compare_and_swap
+    exists, the value it compares against is the guarded one ([p = cur]), that value is alive, and
+    across every step of any thread the object at that address stays the SAME object (it is not
+    destroyed, so its address cannot be reused): address equality is identity equality
+    ([C05_no_aba]).
+*)
+From ASModel Require Import Base State Orderings_gen Step Run Progress Hist Inv InvTl InvProto InvStep Sum StepCases.
+From ASModel Require Import GenDefs Gen1 Gen2 Gen EnvDefs Env4 Env AccDefs Acc1 Acc2 Acc3 Acc4 Acc5 Acc6 Acc7 Acc.
+From ASModel Require Import ProtDefs Prot1 Prot11 Prot16 Prot Typed LinDefs Lin2 Lin Safe1 Safe2 Safe7 Safe8 Safe Main Alive.
 
 Theorem C05_exchange_iff :
   forall cf s l c cur new p d x s' l' evs nx,
@@ -41,6 +48,15 @@ Example C05_example_success :
   True.
 Proof. exact I. Qed.
 
+Theorem C05_no_aba : forall cf s t t' x c cur new p d,
+  GenBound s -> ProgOK s -> alloc_ok s t' x -> Master s ->
+  In (K1 c cur new p d) (t_stack (thr s t)) -> valid cur ->
+  p = cur /\ heap (sh s) cur <> None /\
+  (In (K1 c cur new p d) (t_stack (thr (fst (step cf s t' x)) t)) ->
+   heap (sh (fst (step cf s t' x))) cur = heap (sh s) cur).
+Proof. exact cas_current_identity. Qed.
+
 Print Assumptions C05_exchange_iff.
 Print Assumptions C05_compare_before_exchange.
 Print Assumptions C05_success_returns_current.
+Print Assumptions C05_no_aba.
